@@ -97,7 +97,7 @@ extern void __tsan_read4 (void *);
 
 static void api_held_checks (int t, int mode);
 static void check_ret (int t, const struct op *o, int r, const char *what) {
-	if (r == ETIMEDOUT && !(o->dl > 0 && rt_now () >= RT_T0 + o->dl))
+	if (r == ETIMEDOUT && !(o->dl != 0 && rt_now () >= RT_T0 + o->dl))      /* dl < 0: a deadline already in the past when the scenario starts */
 		rt_violation ("O-ret", "%s returned ETIMEDOUT at clock %ld but its deadline is %d", what, (long) (rt_now () - RT_T0), o->dl);
 	if (r == ECANCELED && !S.notified)
 		rt_violation ("O-ret", "%s returned ECANCELED but the note is not notified", what);
